@@ -234,9 +234,19 @@ op("__iter__", lambda T, a: list(iter(T[0])), lambda D, a: list(iter(D[0])), kin
 op("tolist", lambda T, a: T[0].tolist(), lambda D, a: D[0].tolist(), kind="pylist")
 op("__len__", lambda T, a: [len(T[0]), T[0].dim(), T[0].ndim, T[0].numel(), tuple(T[0].size()), tuple(T[0].shape)],
    lambda D, a: [len(D[0]), D[0].dim(), D[0].ndim, D[0].numel(), tuple(D[0].size()), tuple(D[0].shape)], kind="py")
-op("any", lambda T, a: T[0].any(a[0], a[1]), lambda D, a: D[0].any(a[0], a[1]))
-op("log_softmax", lambda T, a: T[0].log_softmax(a[0]), lambda D, a: D[0].log_softmax(a[0]), arith=True, atol=True)
-op("norm", lambda T, a: T[0].norm(a[0], a[1], a[2]), lambda D, a: D[0].norm(a[0], a[1], a[2]), arith=True, atol=True)
+def _dimok(d, dim):
+    if not (-d.ndim <= dim < d.ndim): raise IndexError("dim out of range (0-dim tensors have no dims)")
+    return d
+
+
+op("any", lambda T, a: T[0].any(a[0], a[1]), lambda D, a: _dimok(D[0], a[0]).any(a[0], a[1]))
+op("log_softmax", lambda T, a: T[0].log_softmax(a[0]), lambda D, a: _dimok(D[0], a[0]).log_softmax(a[0]), arith=True, atol=True)
+op("norm", lambda T, a: T[0].norm(a[0], a[1], a[2]), lambda D, a: _dimok(D[0], a[1]).norm(a[0], a[1], a[2]), arith=True, atol=True)
+
+
+def _dimok(d, dim):
+    if not (-d.ndim <= dim < d.ndim): raise IndexError("dim out of range (0-dim tensors have no dims)")
+    return d
 
 
 def _post_dim_to_dense(T, a, res):
@@ -249,7 +259,7 @@ def _post_dim_to_dense(T, a, res):
     return None
 
 
-op("dim_to_dense", lambda T, a: T[0].dim_to_dense(a[0]), lambda D, a: D[0].clone(), post=_post_dim_to_dense)
+op("dim_to_dense", lambda T, a: T[0].dim_to_dense(a[0]), lambda D, a: _dimok(D[0], a[0]).clone(), post=_post_dim_to_dense)
 op("default_to", lambda T, a: T[0].default_to(_sc(a[0])), lambda D, a: D[0].clone(),
    post=lambda T, a, res: None if (res.default == _sc(a[0]) or (math.isnan(res.default) and math.isnan(_sc(a[0]))))
    else f"result default {res.default} != {_sc(a[0])}")
@@ -265,14 +275,15 @@ op("to_dense", lambda T, a: T[0].to_dense(), lambda D, a: D[0].clone(), kind="te
 def _project_pt(T, a):
     from fggs.indices import PhysicalAxis
     q = a[0]
-    if q == "self":
+    if len(a) > 1 and a[1] == "alias":      # the tensor's own paxes/vaxes (exercises the freshen path)
         return T[0].project(T[0].paxes, T[0].vaxes)
     paxes = tuple(PhysicalAxis(n) for n in q["pool"])
     vaxes = tuple(G.build_axis(x, paxes) for x in q["vaxes"])
     return T[0].project(paxes, vaxes)
 
 
-def _project_dn(D, a, recipes=None):
+def _project_dn(D, a):
+    """spec of project: result[p] = D(t)[vaxes(p)] for every physical index tuple p of `paxes`"""
     q = a[0]
     pool = list(q["pool"])
     out = torch.empty(pool, dtype=D[0].dtype)
@@ -291,7 +302,7 @@ op("view", lambda T, a: T[0].view(*a[0]) if a[1] == "star" else T[0].view(a[0]),
 
 # ------------------------------------------------------------------------------------ running one case
 def _snapshot(t):
-    return (t.physical.clone(), t.default, tuple(t.physical.size()), t.to_dense())
+    return (t.physical.clone(), t.default, tuple(t.physical.size()), None)
 
 
 def _frame_violation(t, snap, d) -> Optional[str]:
@@ -307,20 +318,21 @@ def _frame_violation(t, snap, d) -> Optional[str]:
 
 def _reshape_must(src: Tuple[int, ...], tgt: Tuple[int, ...]) -> Optional[str]:
     """name of the must-succeed class if reshaping src->tgt only merges adjacent dims and/or
-       inserts/removes size-1 dims"""
+       inserts/removes size-1 dims (None otherwise)"""
+    src, tgt = tuple(src), tuple(tgt)
     s = [n for n in src if n != 1]; t = [n for n in tgt if n != 1]
     if s == t:
-        return "size1" if tuple(src) != tuple(tgt) else "identity"
-    # is t a coarsening of s (each target dim = product of a consecutive group)?
+        return "identity" if src == tgt else "size1"
+    if 0 in s:
+        return None
+    # is t a coarsening of s (each target dim = product of a consecutive group of source dims)?
     i = 0
     for n in t:
-        acc = 1; k = 0
-        while i < len(s) and (k == 0 or acc < n) :
-            acc *= s[i]; i += 1; k += 1
-            if acc == n: break
+        acc = 1
+        while i < len(s) and acc < n:
+            acc *= s[i]; i += 1
         if acc != n: return None
     if i != len(s): return None
-    pure = len(src) - len(s) == 0 and len(tgt) - len(t) == 0 or [n for n in src] == s and tgt == tuple(t)
     return "merge_adjacent" if (list(src) == s and list(tgt) == t) else "merge_adjacent+size1"
 
 
@@ -373,7 +385,8 @@ def run_op(name: str, recipes: List[dict], args: list) -> List[Tuple[str, str]]:
                     out.append(("value", f"result is {type(res).__name__}"))
                 else:
                     try:
-                        I._verif_check_rep(res)
+                        # constructions are validated by the hook; in-place results are re-validated here
+                        if o.inplace or not I._FGGS_VERIF: I._verif_check_rep(res)
                     except I.RepInvariantError as e:
                         out.append(("wf", f"RepInvariantError: {e}"))
                     else:
@@ -497,18 +510,45 @@ def replay_case(case: dict) -> bool:
 
 
 # ------------------------------------------------------------------------------------ failure keys
+DEFAULT_SENSITIVE = {"log_softmax", "norm", "relu_", "maximum", "maximum_self", "nan_to_num_", "log", "log_", "log1p_"}
+
+
+def _has_sum0(a) -> bool:
+    if a[0] == "P": return False
+    if a[0] == "*": return any(_has_sum0(f) for f in a[1])
+    return (a[1] == 0 and a[3] == 0) or _has_sum0(a[2])
+
+
 def _key(obl: str, case: dict, detail: str) -> str:
+    """stable key of the failing input class: clause, exception type, and the feature of the
+       input that selects the faulty branch"""
     rs = case["ops"]
     exc = ""
     if obl.endswith(".raises") or obl.endswith(".wf") or "raised" in detail:
-        for word in detail.replace(":", " ").split():
+        for word in detail.replace(":", " ").replace(";", " ").split():
             if word.endswith("Error") or word.endswith("Exception"):
                 exc = word; break
-    d = ",".join(dclass(r.get("default", 0)) for r in rs)
-    k = f"{obl}|{exc}|default={d}"
+    opn, clause = obl.split(".")[0], obl.split(".")[-1]
+    tags = [exc] if exc else []
     if "prog" in case:
-        k = f"{obl}|{exc}|in-program"
-    return k
+        return obl + "|" + "|".join(tags + ["in-program"])
+    dcl = "default=" + ",".join(dclass(r.get("default", 0)) for r in rs)
+    if exc == "ZeroDivisionError":
+        pass
+    elif opn in ("log", "log_", "log1p_") and exc == "ValueError":
+        tags.append(dcl)
+    elif opn in ("log_softmax", "norm") and not exc:
+        args = case.get("args", [])
+        dim = args[0] if opn == "log_softmax" else args[1]
+        tags.append("dim-of-size-1" if shape_of(rs[0])[dim] == 1 else dcl)
+    elif opn in DEFAULT_SENSITIVE and clause == "value" and opn != "nan_to_num_":
+        tags.append(dcl)
+    elif opn == "nan_to_num_":
+        tags += [dcl, "args=" + json.dumps(case.get("args")), rs[0].get("dtype", "float64")]
+    else:
+        if any(0 in r["pool"] for r in rs): tags.append("zero-size-axis")
+        if any(_has_sum0(x) for r in rs for x in r["vaxes"]): tags.append("SumAxis(0,e,0)")
+    return obl + "|" + "|".join(tags)
 
 
 # ------------------------------------------------------------------------------------ unit generators
@@ -561,7 +601,8 @@ def gen_unit(unit: dict):
                         yield {"op": name, "ops": [r], "args": []}
                     for a in NAN_TO_NUM_ARGS:
                         yield {"op": "nan_to_num_", "ops": [r], "args": a}
-                    for s in SCALARS:
+                    di7 = DEFAULTS7.index(dflt) if dflt == dflt else 6
+                    for s in (SCALARS if (th or pi % 5 == 0) else [SCALARS[(pi + di7) % 5], SCALARS[(pi + 2 * di7 + 2) % 5]]):
                         for name in ("lt", "le", "gt", "ge", "eq", "add", "mul", "sub", "div"):
                             yield {"op": name + "_scalar", "ops": [r], "args": [enc(s)]}
                         for name in ("clamp_min", "clamp_max", "__imul__scalar", "__itruediv__scalar"):
@@ -589,7 +630,7 @@ def gen_unit(unit: dict):
                 yield {"op": "to", "ops": [r], "args": ["int64"]}
             else:  # structural
                 nd = len(shape)
-                dfl = DEFAULTS7 if (th or pi % 2 == 0) else [DEFAULTS7[pi % 7], DEFAULTS7[(pi + 3) % 7]]
+                dfl = DEFAULTS7 if (th or pi % 4 == 0) else [DEFAULTS7[pi % 7], DEFAULTS7[(pi + 3) % 7]]
                 for di, dflt in enumerate(dfl):
                     r = fill_data(p, rng, dtype=fdt, default=dflt)
                     full = di == 0 or th
@@ -598,7 +639,7 @@ def gen_unit(unit: dict):
                         yield one(name)
                     if nd <= 2: yield one("t")
                     if nd >= 1: yield one("__iter__")
-                    yield one("project", ["self"])
+                    yield one("project", [{"pool": r["pool"], "vaxes": r["vaxes"]}, "alias"])
                     for d2 in ([0.0, 1.0, -inf, nan, dflt] if full else [0.0, dflt]):
                         yield one("default_to", [enc(d2)])
                     for dim in range(-nd - 1, nd + 1):
@@ -674,10 +715,12 @@ def gen_unit(unit: dict):
         for i, j in itertools.product(range(len(pa)), range(len(pb))):
             n += 1
             if (i * 7 + j) % stride: continue
+            if not G.compatible(pa[i], pb[j], broadcast=(sa != sb)): continue      # ill-typed pair
             x = others[(i + 2 * j) % 6]; y = others[(3 * i + j + 1) % 6]
-            for name, idv in ident.items():
+            for oi, (name, idv) in enumerate(ident.items()):
                 dps = [(idv, idv), (idv, x), (x, idv), (x, y)]
                 if th: dps += [(y, x), (inf, idv), (idv, nan)]
+                else: dps = [dps[(i + j + oi) % 4], dps[(i + j + oi + 1 + (i % 3 == 0)) % 4]]
                 for (da, db) in dps:
                     ra = dict(fa[i]); ra["default"] = enc(da)
                     rb = dict(fb[j]); rb["default"] = enc(db)
@@ -687,11 +730,13 @@ def gen_unit(unit: dict):
             rb = dict(fb[j]); rb["default"] = enc(y)
             opn = ["__add__", "__mul__", "__sub__", "__truediv__"][(i + j) % 4]
             yield {"op": opn, "ops": [ra, rb], "args": []}
-            for name in ("lt", "le", "gt", "ge", "eq"):
+            cmpn = ("lt", "le", "gt", "ge", "eq")
+            for name in (cmpn if th else (cmpn[(i + j) % 5], cmpn[(i + 2 * j + 2) % 5])):
                 yield {"op": name, "ops": [ra, rb], "args": []}
             if sa == sb or len(sb) <= len(sa) and all(b in (1, a) for a, b in zip(reversed(sa), reversed(sb))):
                 yield {"op": ["__imul__tensor", "__itruediv__tensor"][(i + j) % 2], "ops": [ra, rb], "args": []}
-            for da, db in ((False, False), (False, True), (True, False), (True, True)):
+            bd = ((False, False), (False, True), (True, False), (True, True))
+            for da, db in (bd if th else (bd[(i + j) % 4], bd[(i + j + 1 + j % 2) % 4])):
                 ra = dict(ba[i]); ra["default"] = da
                 rb = dict(bb[j]); rb["default"] = db
                 yield {"op": "logical_and", "ops": [ra, rb], "args": []}
@@ -707,6 +752,8 @@ def gen_unit(unit: dict):
         for i, j in itertools.product(range(len(pt_)), range(len(pc))):
             ks = sorted({(i + j) % len(pu), (3 * i + 5 * j + 1) % len(pu), 0}) if not th else range(len(pu))
             for k in ks:
+                if not (G.compatible(pt_[i], pc[j], True) and G.compatible(pc[j], pu[k], True) and G.compatible(pt_[i], pu[k], True)):
+                    continue                                                        # ill-typed triple
                 for cd in (False, True):
                     rt = dict(ft[i]); rt["default"] = enc(others[(i + j + k) % 6])
                     rc = dict(fc[j]); rc["default"] = cd
@@ -720,16 +767,22 @@ def gen_unit(unit: dict):
         nd = len(shape)
         for i, j in itertools.product(range(len(pats)), repeat=2):
             dflt = f[i]["default"]
-            yield {"op": "project", "ops": [f[i]], "args": [{"pool": pats[j]["pool"], "vaxes": pats[j]["vaxes"]}]}
+            if dec(dflt) != dec(dflt): dflt = 2.5      # stack requires equal defaults: NaN is not meaningful
+            if G.compatible(pats[i], pats[j]):
+                yield {"op": "project", "ops": [f[i]], "args": [{"pool": pats[j]["pool"], "vaxes": pats[j]["vaxes"]}]}
+            if not G.compatible(pats[i], pats[j]): continue
+            ri = dict(f[i]); ri["default"] = dflt
             rj = dict(f[j]); rj["default"] = dflt
             for dim in ([0, nd] if not th else range(nd + 1)):
-                yield {"op": "stack", "ops": [f[i], rj], "args": [dim]}
+                yield {"op": "stack", "ops": [ri, rj], "args": [dim]}
             k = (i + 2 * j + 1) % len(pats)
-            rk = dict(f[k]); rk["default"] = dflt
-            yield {"op": "stack", "ops": [f[i], rj, rk], "args": [(i + j) % (nd + 1)]}
+            if G.compatible(pats[i], pats[k]) and G.compatible(pats[j], pats[k]):
+                rk = dict(f[k]); rk["default"] = dflt
+                yield {"op": "stack", "ops": [ri, rj, rk], "args": [(i + j) % (nd + 1)]}
         for i in range(len(pats)):
             yield {"op": "stack", "ops": [f[i]], "args": [i % (nd + 1)]}
-            yield {"op": "stack", "ops": [f[i], f[i]], "args": [0]}
+            if dec(f[i]["default"]) == dec(f[i]["default"]):
+                yield {"op": "stack", "ops": [f[i], f[i]], "args": [0]}
             for name in ("add_self", "mul_self", "sub_self", "maximum_self", "eq_self"):
                 yield {"op": name, "ops": [f[i]], "args": []}
     elif kind == "copy":       # copy_ between any two patterns (any shapes)
@@ -758,8 +811,14 @@ def gen_unit(unit: dict):
                  ["maximum_self", []], ["log_softmax", [0]], ["nan_to_num_", [0, "inf", None]], ["to", ["float32"]],
                  ["norm", [2, 0, True]], ["eq_self", []], ["expm1", []]]
         L = 3 if th else 2
+        if not th:
+            drop = {("abs_",), ("unsqueeze", -1), ("mul_scalar", -1), ("default_to", "-inf"), ("reshape", 1), ("mul_self",), ("expm1",), ("eq_self",)}
+            steps = [st for st in steps if (st[0],) not in drop and not (st[0] == "unsqueeze" and st[1] == [-1])
+                     and not (st[0] == "mul_scalar" and st[1] == [-1]) and not (st[0] == "default_to" and st[1] == ["-inf"])
+                     and not (st[0] == "reshape" and st[1][0] == [1, -1])]
+            if len(pats) > 12: pats = pats[::2]
         for pi, p in enumerate(pats):
-            r = fill_data(p, rng, dtype="float64", default=DEFAULTS7[pi % 7 if DEFAULTS7[pi % 7] == DEFAULTS7[pi % 7] else 0])
+            r = fill_data(p, rng, dtype="float64", default=DEFAULTS7[pi % 7])
             if L == 2:
                 progs = itertools.product(steps, repeat=2)
             else:
@@ -852,7 +911,7 @@ def make_units(ctx: Ctx) -> List[dict]:
         U.append({"kind": "binary", "shape": list(s), "shape2": list(s), "stride": 5})
     bp = _broadcast_pairs(bmax)
     for a, b in bp:
-        U.append({"kind": "binary", "shape": list(a), "shape2": list(b), "stride": 1 if th else 2})
+        U.append({"kind": "binary", "shape": list(a), "shape2": list(b), "stride": 1 if th else 3})
     for s in _bshapes(4):
         U.append({"kind": "where", "shape": list(s), "shape2": list(s), "shape3": list(s)})
     wb = [((2, 2), (2,), (2, 2)), ((2,), (2, 2), (1,)), ((), (2, 2), (2, 1)), ((1, 2), (2, 1), ()), ((2, 1), (2,), (2,)),
@@ -936,3 +995,6 @@ if __name__ == "__main__":
     print("wall", round(time.time() - t0, 1), "failures", len(r.failures))
     for b in r.bounded: print(b.function[:60], b.cases, b.distinct_nontrivial, b.extra.get("wall_cpu_s"))
     for k, v in r.extra["c06_failure_counts_by_key"].items(): print(v, k)
+    if len(sys.argv) > 2:
+        json.dump([{"obligation": f.obligation, "key": f.key, "what": f.what, "detail": f.detail, "case": f.replay["case"]}
+                   for f in r.failures], open(sys.argv[2], "w"), indent=0)
